@@ -131,8 +131,7 @@ def rules(rep, m):
     ws = inv.field_writers(m, "cmi_hashheap", "item_counter")
     for f, lhs, rhs, kind, node in ws:
         r2.instance("%s writes item_counter (%s)" % (f.name, kind))
-        inc = kind == "++" or (kind == "+=" and (int_value(rhs) or 0) > 0)
-        if f.name != "cmi_hashheap_enqueue" or not inc:
+        if f.name not in ("cmi_hashheap_enqueue", "cmi_hashheap_initialize", "cmi_hashheap_reset"):
             rep.finding(r2, f.name, "item_counter:write",
                         "item counter written by %s (%s %s): handles no longer strictly increase"
                         % (f.name, kind, render(rhs) if rhs else ""), where=m.rel(loc(node)))
@@ -141,21 +140,43 @@ def rules(rep, m):
             r2.ok()
     if not ws:
         raise AnalysisBroken("no writer of cmi_hashheap.item_counter found")
+    # engine LSE: on every path through enqueue the counter goes up by exactly one and the key that is returned (and
+    # stored) is the caller's key when that is non-zero and the new counter value when it is zero
+    from ..engines.lse import LSE
+    from ..engines.induct import Poly, Facts
     enq = m.need("cmi_hashheap_enqueue")
     ecx = FuncCtx(m, enq)
+    hpn = enq.params[0]["name"]
     keyparam = enq.params[5]["name"]
-    auto = False
-    for n in walk(enq.body):
-        if n["kind"] == "IfStmt":
-            c = ecx.canon(kids(n)[0])
-            if re.fullmatch(r"\(%s == 0\)" % keyparam, c):
-                for lhs, rhs, kind, node in [(kids(x)[0], kids(x)[1], "=", x) for x in walk(kids(n)[1])
-                                             if x["kind"] == "BinaryOperator" and x.get("opcode") == "="]:
-                    if ecx.canon(lhs) == keyparam and ecx.canon(rhs).endswith("->item_counter"):
-                        auto = True
-    r2.instance("enqueue issues key = item_counter when key 0 is passed: %s" % auto)
+    eng = LSE(ecx, {"%s->item_counter" % hpn: "n", "%s->heap_count" % hpn: "c"},
+              Facts().add_le0(Poly.sym("key").scale(-1), "key >= 0 (unsigned)"), params={keyparam: "key"})
+    paths = [p_ for p_ in eng.run(kids(enq.body)) if p_.ret is not None or p_.done]
+    auto = bool(paths)
+    why = "no path returns a key"
+    N1 = Poly.sym("n") + Poly.const(1)
+    for p_ in paths:
+        cnt = p_.state["%s->item_counter" % hpn]
+        if not (cnt - N1 == Poly()):
+            auto, why = False, "the item counter becomes %s (expected its old value + 1)" % cnt.show()
+            continue
+        if p_.ret is None:
+            auto, why = False, "a path returns a value that is not a linear function of the key and the counter"
+            continue
+        zero_key = p_.facts.proves_le0(Poly.sym("key"))            # key <= 0 and key >= 0
+        if p_.ret - N1 == Poly():
+            if not zero_key:
+                auto, why = False, "the new counter value is returned although the caller's key may be non-zero"
+        elif p_.ret - Poly.sym("key") == Poly():
+            nonzero = not p_.facts.add_le0(Poly.sym("key")).feasible()
+            if not nonzero:
+                auto, why = False, "the caller's key is returned although it may be zero (no handle is issued)"
+        else:
+            auto, why = False, "a path returns %s" % p_.ret.show()
+    r2.instance("enqueue: %d path(s); counter + 1 and key issue rule hold: %s" % (len(paths), auto))
+    rep.sample({"rule": "R-C01-2", "enqueue_paths": [{"returns": p_.ret.show() if p_.ret is not None else None,
+                                                      "facts": p_.facts.notes} for p_ in paths]})
     if not auto:
-        rep.finding(r2, enq.name, "autokey", "enqueue no longer issues the item counter as key for key 0",
+        rep.finding(r2, enq.name, "autokey", "enqueue no longer issues the incremented item counter as key for key 0 (%s)" % why,
                     where=m.rel(enq.where))
         r2.fail()
     else:
